@@ -1,4 +1,5 @@
 import MetapypeModel.Lemmas.ForestLemmas
+import MetapypeModel.Lemmas.ForestAcyclic
 import MetapypeModel.Model.Query
 /-
   C09 — edit histories keep an ordered tree; queries observe exactly that tree.
@@ -290,6 +291,97 @@ example : Inv { name := fun _ => "a", kids := fun _ => [], parent := fun _ => no
 example : Admissible { name := fun _ => "a", kids := fun _ => [], parent := fun _ => none }
     [.append 0 1, .insert 0 2 (-1), .shift 0 1 .left true, .remove 0 1] := by
   simp [Admissible, Attachable, step, Forest.setKids, Forest.setParent]
+
+/-! ### the edited structure stays a forest: no node becomes its own descendant -/
+
+/-- a node is never attached to itself or below itself (`add_child` does not check this; a history that does it builds a
+    structure that contains itself, on which every recursive operation of the library diverges) -/
+def NoSelfAttach (F : Forest) : Op → Prop
+  | .append p c => c ≠ p ∧ ¬ Desc F c p
+  | .insert p c _ => c ≠ p ∧ ¬ Desc F c p
+  | .replace p _ new => new ≠ p ∧ ¬ Desc F new p
+  | _ => True
+
+/-- one edit keeps the child relation acyclic -/
+theorem C09_acyclic_step (F : Forest) (op : Op) (ha : Acyclic F) (hs : NoSelfAttach F op) : Acyclic (step F op).1 := by
+  cases op with
+  | append p c =>
+    refine acyclic_add_edge ha ?_ hs.1 hs.2
+    intro a b hb
+    simp only [step, Forest.setKids, Forest.setParent] at hb
+    by_cases hap : a = p
+    · subst hap; simp only [if_true, List.mem_append, List.mem_singleton] at hb
+      rcases hb with h | h
+      · exact Or.inl h
+      · exact Or.inr ⟨rfl, h⟩
+    · simp only [hap, if_false] at hb; exact Or.inl hb
+  | insert p c i =>
+    refine acyclic_add_edge ha ?_ hs.1 hs.2
+    intro a b hb
+    simp only [step, Forest.setKids, Forest.setParent] at hb
+    by_cases hap : a = p
+    · subst hap; simp only [if_true] at hb
+      rcases mem_insertAt_or _ _ _ _ hb with h | h
+      · exact Or.inl h
+      · exact Or.inr ⟨rfl, h⟩
+    · simp only [hap, if_false] at hb; exact Or.inl hb
+  | remove p c =>
+    refine acyclic_sub ha ?_
+    intro a b hb
+    simp only [step] at hb
+    split at hb
+    · simp only [Forest.setKids] at hb
+      by_cases hap : a = p
+      · subst hap; simp only [if_true] at hb; exact List.mem_of_mem_erase hb
+      · simp only [hap, if_false] at hb; exact hb
+    · exact hb
+  | replace p old new =>
+    simp only [step]
+    split
+    · exact ha
+    · split
+      · exact ha
+      · refine acyclic_add_edge ha ?_ hs.1 hs.2
+        intro a b hb
+        simp only [Forest.setKids, Forest.setParent] at hb
+        by_cases hap : a = p
+        · subst hap; simp only [if_true] at hb
+          rcases mem_set _ _ _ _ hb with h | h
+          · exact Or.inl h
+          · exact Or.inr ⟨rfl, h⟩
+        · simp only [hap, if_false] at hb; exact Or.inl hb
+  | shift p c d sib =>
+    refine acyclic_sub ha ?_
+    intro a b hb
+    by_cases hap : a = p
+    · subst hap
+      exact (C09_shift_perm F a c d sib).mem_iff.mp hb
+    · rw [C09_other_lists_unchanged F (.shift p c d sib) a (by simpa using hap)] at hb; exact hb
+  | clear p =>
+    refine acyclic_sub ha ?_
+    intro a b hb
+    simp only [step, Forest.setKids] at hb
+    by_cases hap : a = p
+    · subst hap; simp at hb
+    · simp only [hap, if_false] at hb; exact hb
+
+/-- a history in which no attach goes to the node itself or below it -/
+def NoSelfAttachHist : Forest → List Op → Prop
+  | _, [] => True
+  | F, op :: ops => NoSelfAttach F op ∧ NoSelfAttachHist (step F op).1 ops
+
+/-- after every such history the structure is still a forest -/
+theorem C09_acyclic_hist : ∀ (ops : List Op) (F : Forest), Acyclic F → NoSelfAttachHist F ops →
+    Acyclic (ops.foldl (fun G op => (step G op).1) F)
+  | [], _, ha, _ => ha
+  | op :: ops, F, ha, hs => by
+    simp only [List.foldl_cons]
+    exact C09_acyclic_hist ops _ (C09_acyclic_step F op ha hs.1) hs.2
+
+/-- the hypothesis cannot be dropped: attaching a root below its own child yields a node that is its own descendant -/
+example : ¬ Acyclic (step (step { name := fun _ => "a", kids := fun _ => [], parent := fun _ => none } (.append 0 1)).1 (.append 1 0)).1 := by
+  intro h
+  refine h 0 (Desc.step (m := 1) ?_ (Desc.kid ?_)) <;> simp [step, Forest.setKids, Forest.setParent]
 
 /- ---------------------------------------------------------------- queries -/
 
